@@ -145,7 +145,7 @@ impl Scenario for TwoNode {
             let sh2 = sh.clone();
             // the producer: a block tree over a small alphabet; switches forks, rolls back to points the
             // consumer never saw, re-announces points (Byzantine variant)
-            let prod = tokio::spawn(chaos(
+            let prod = tokio::spawn(chaos_auto(
                 async move {
                     let mut chain: Vec<u64> = vec![];
                     loop {
